@@ -737,6 +737,15 @@ fn leak_probes(_: &Ctx) -> Vec<RCase> {
         c.reps = 120;
         v.push(c);
     }
+    // every single-field corruption of the first block's 16-byte header of each entry kind, repeated
+    for (k, name) in [(0usize, "standard"), (1, "texture"), (2, "model")] {
+        let o = a.entry_offsets[k] as usize;
+        let hdr = u32::from_le_bytes([a.dat[o], a.dat[o + 1], a.dat[o + 2], a.dat[o + 3]]) as usize;
+        let first_block = if k == 1 { o + hdr + 80 } else { o + hdr };
+        let mut offs: Vec<u8> = vec![];
+        offs.extend_from_slice(&(o as u64).to_le_bytes());
+        v.extend(header_leak_cases("dat", &format!("leak:block-header-field-in-{}-entry", name), &[a.dat.clone(), offs, vec![0]], 0, first_block, 16, 120));
+    }
     // texture and model entries with a damaged block
     for (k, name) in [(1usize, "texture"), (2usize, "model")] {
         let o = a.entry_offsets[k];
